@@ -375,7 +375,9 @@ def make_interp(W, *, merged=True, unroll=None, mutants=None, pow_fork=True, tim
     return e2.Interp(W, classes=CLASSES, loop_mode=lm, default_loop="merge" if merged else "fork", max_unroll=80,
                      always_interpret={FiniteBifield.__call__}, attr_stubs={(FiniteBifield, "_element_cache"): e2.NullCache()},
                      unroll=unroll, mutants=mutants, decide_timeout_ms=timeout_ms or tier(60000, 120000),
-                     drop_attr_stores={"_minimal_poly"})
+                     drop_attr_stores={"_minimal_poly"},
+                     pure={FiniteBifieldElement.__mul__, FiniteBifieldElement.__add__, BinaryPolynomial.__mul__, BinaryPolynomial.__mod__,
+                           BinaryPolynomial.div, BinaryPolynomial.degree.fget, FiniteBifieldElement.__pow__})
 
 
 # ================================================================================================
@@ -732,13 +734,8 @@ LIT_FIELD = {3: [(5, 3), (3, 5), (5, 0), (0, 5), (1, 1), (2, 2), (7, 7), (10, 3)
 
 
 def _conc(I, fn, fixed, xs):
-    ps = I.explore(lambda: I.call(fn, list(fixed) + [e2.SI(I.val(x)) for x in xs]))
-    if len(ps) != 1:
-        return ("paths", len(ps))
-    p = ps[0]
-    if p.dead:
-        return ("raised", "")
-    return ("value", I.concretize(p.result))
+    r = I.run_concrete(fn, fixed, xs)
+    return ("raised", "") if r[0] == "raised" else r
 
 
 def _nat(fn, fixed, xs):
